@@ -321,6 +321,33 @@ func runC11(c *Ctx) {
 			}
 		}
 	}
+	if !digOK {
+		// the digest encoded once into a block of its own, and every lane buffer a fresh 243-trit copy of that block
+		block := "slice(obj(alloc<[243]int8>, call<github.com/iotaledger/iota.go/encoding/b1t6.Encode>(slice(self, 0, 243), " + PD + ")), 0, none)"
+		copyOf := "call<builtin.append>(slice(alloc<[243]int8>, 0, 0), " + block + ")"
+		for _, l := range rangeLoopsAll(sb) {
+			for _, blk := range search.Blocks {
+				for _, ins := range blk.Instrs {
+					st, isSt := ins.(*ssa.Store)
+					if !isSt || !l.Blocks[blk] {
+						continue
+					}
+					at, vt := sb.Of(st.Addr, st), sb.Of(st.Val, st)
+					bd, okAt := ana.MatchAny(at, "iaddr($buf, ind<+1>(0))", "iaddr($buf, bin<+>(ind<+1>(-1), 1))")
+					if !okAt || !matches(copyOf, vt) {
+						continue
+					}
+					whole := l.Coll.V != nil && bd["$buf"].V != nil && sb.Root(l.Coll.V) == sb.Root(bd["$buf"].V)
+					if !whole && l.Coll.Op == "upto" {
+						whole = matches("len("+termPat(bd["$buf"])+")", l.Coll.Arg(0))
+					}
+					if whole && len(l.Back) == 1 && blk.Dominates(l.Back[0].From) {
+						digOK = true
+					}
+				}
+			}
+		}
+	}
 	nEnc := len(ana.CallsTo(search, "github.com/iotaledger/iota.go/encoding/b1t6.Encode"))
 	r.Check(digOK && nEnc == 1, "C11.nonce-layout.lane-digest", c.P.Pos(search.Pos()), "every one of the 64 lane buffers (a range loop over the whole batch) is a fresh 243-trit block into which the digest is b1t6-encoded at trit 0 (Encode sites: %d)", nEnc)
 	r.Check(fill, "C11.nonce-layout.lane-filling", c.P.Pos(search.Pos()), "lane i of every batch is given nonce base+i, encoded at trit offset EncodedLen(len(digest))")
